@@ -10,7 +10,8 @@
     short and no known-defective path was taken. *)
 From Coq Require Import ZArith List Bool.
 From Nice Require Import Stream.StreamBase Stream.StreamProofs
-  Stream.TurnTcpModel Stream.TurnTcpProofs Stream.TcpQueueModel Stream.TcpQueueProofs.
+  Stream.TurnTcpModel Stream.TurnTcpProofs Stream.TcpQueueModel Stream.TcpQueueProofs
+  Stream.PsslModel Stream.PsslProofs Stream.Socks5Model Stream.Socks5Proofs Stream.HttpModel Stream.HttpProofs.
 Import ListNotations.
 Local Open Scope Z_scope.
 
@@ -51,6 +52,13 @@ Proof.
   exists RFC5766, [[0; 1; 255; 255] ++ repZ 7 65533].
   vm_compute. auto 10.
 Qed.
+
+(** tunnel transparency in Google mode: whatever message the layer frames on the send side comes out, after any
+    segmentation of those bytes, as exactly that message on the receive side *)
+Theorem C17_tunnel_transparent_turn_google : forall bufs cs,
+  0 < lenZ (concat bufs) <= 65535 -> concat cs = turn_frame GOOGLE bufs ->
+  vis vis_msg (snd (run turn_body (alive (turn_init GOOGLE)) cs)) = [OMsg (concat bufs) (-1)].
+Proof. exact turn_roundtrip_google. Qed.
 
 (** * (5) the TCP send queue *)
 
@@ -98,4 +106,145 @@ Qed.
 Example C17_turn_nonvacuous :
   vis vis_msg (snd (run turn_body (alive (turn_init GOOGLE)) [[0]; [3; 7]; [8; 9; 0; 1]; [5]])) =
   [OMsg [7; 8; 9] (-1); OMsg [5] (-1)].
+Proof. vm_compute. reflexivity. Qed.
+
+(** * (3) pseudo-SSL *)
+
+(** [clean] of a run = every read of a fixed-size handshake unit obtained all the bytes it asked for
+    (and no known-defective path was taken) *)
+Definition no_short_handshake_read (tr : list ev) : Prop := clean tr = true.
+
+(** segmentation independence holds for every chunking in which the server hello arrives in one read ... *)
+Theorem C17_seg_independent_pssl_except_split_hello : forall G compat cs,
+  let w0 := alive (pssl_init compat) in
+  no_short_handshake_read (snd (run (pssl_body G) w0 cs)) ->
+  weq (fst (run (pssl_body G) w0 cs)) (fst (feed (pssl_body G) w0 (concat cs))) /\
+  vis vis_str (snd (run (pssl_body G) w0 cs)) = vis vis_str (snd (feed (pssl_body G) w0 (concat cs))).
+Proof. intros G compat cs. apply pssl_seg_independent_except. unfold pinv, pssl_init; simpl; discriminate. Qed.
+
+(** ... and fails otherwise: the Google server hello cut after 10 bytes kills the connection (unchanged code) *)
+Theorem C17_seg_independent_pssl_refuted : exists G compat cs,
+  vis vis_str (snd (run (pssl_body G) (alive (pssl_init compat)) cs)) <>
+  vis vis_str (snd (feed (pssl_body G) (alive (pssl_init compat)) (concat cs))).
+Proof.
+  exists 190, PS_GOOGLE, [takeZ 10 SSL_SERVER_GOOGLE; dropZ 10 SSL_SERVER_GOOGLE; [1; 2]].
+  vm_compute. discriminate.
+Qed.
+
+Theorem C17_tunnel_transparent_pssl : forall G s cs rel bufs, p_hs s = true -> p_base s = true ->
+  fst (run (pssl_body G) (alive s) cs) = alive s /\
+  vis vis_str (snd (run (pssl_body G) (alive s) cs)) = map OByte (concat cs) /\
+  pssl_send s rel bufs = (s, [Dn (concat bufs); Snd 1]).
+Proof.
+  intros G s cs rel bufs H B. destruct (pssl_tunnel_transparent G s cs H B). repeat split; auto.
+  exact (pssl_send_transparent s rel bufs H B).
+Qed.
+
+Theorem C17_no_fault_pssl : forall G compat cs,
+  ~ In EFault (snd (run (pssl_body G) (alive (pssl_init compat)) cs)) /\
+  ~ In ELive (snd (run (pssl_body G) (alive (pssl_init compat)) cs)).
+Proof. intros G compat cs. apply pssl_no_fault. unfold pinv, pssl_init; simpl; discriminate. Qed.
+
+Example C17_pssl_nonvacuous :
+  no_short_handshake_read (snd (run (pssl_body 190) (alive (pssl_init PS_GOOGLE)) [SSL_SERVER_GOOGLE ++ [7]; [8; 9]])) /\
+  vis vis_str (snd (run (pssl_body 190) (alive (pssl_init PS_GOOGLE)) [SSL_SERVER_GOOGLE ++ [7]; [8; 9]])) =
+  [OByte 7; OByte 8; OByte 9].
+Proof. vm_compute. split; reflexivity. Qed.
+
+(** * (2) SOCKS5 *)
+
+Theorem C17_seg_independent_socks5_except_short_read : forall G user pass addr cs,
+  let w0 := alive (socks_init user pass addr) in
+  no_short_handshake_read (snd (run (socks_body G) w0 cs)) ->
+  weq (fst (run (socks_body G) w0 cs)) (fst (feed (socks_body G) w0 (concat cs))) /\
+  vis vis_str (snd (run (socks_body G) w0 cs)) = vis vis_str (snd (feed (socks_body G) w0 (concat cs))).
+Proof. intros G user pass addr cs. apply socks_seg_independent_except. apply sinv_init. Qed.
+
+(** the connect reply split between its 4-byte head and the bound address fails the handshake;
+    delivered in one piece the same bytes open the tunnel and the two bytes that follow are delivered *)
+Theorem C17_seg_independent_socks5_refuted : exists G user pass addr cs,
+  vis vis_str (snd (run (socks_body G) (alive (socks_init user pass addr)) cs)) <>
+  vis vis_str (snd (feed (socks_body G) (alive (socks_init user pass addr)) (concat cs))).
+Proof.
+  exists 170, None, None, [1; 2; 3; 4; 31; 144], [[5; 0]; [5; 0; 0; 1]; [127; 0; 0; 1; 31; 144]; [9; 9]].
+  vm_compute. discriminate.
+Qed.
+
+(** a partially received bound address is accepted; its remainder is then delivered as tunnelled data *)
+Theorem C17_socks5_partial_tail_leaks_into_tunnel :
+  vis vis_str (snd (run (socks_body 170) (alive (socks_init None None [1; 2; 3; 4; 31; 144]))
+                        [[5; 0]; [5; 0; 0; 1; 127; 0]; [0; 1; 31; 144; 9; 9]])) =
+  [ODn [5; 1; 0; 1; 1; 2; 3; 4; 31; 144]; OByte 0; OByte 1; OByte 31; OByte 144; OByte 9; OByte 9].
+Proof. vm_compute. reflexivity. Qed.
+
+Theorem C17_tunnel_transparent_socks5 : forall G s cs rel bufs, s_state s = SK_CONNECTED -> s_base s = true ->
+  fst (run (socks_body G) (alive s) cs) = alive s /\
+  vis vis_str (snd (run (socks_body G) (alive s) cs)) = map OByte (concat cs) /\
+  socks_send s rel bufs = (s, [Dn (concat bufs); Snd 1]).
+Proof.
+  intros G s cs rel bufs H B. destruct (socks_tunnel_transparent G s cs H B). repeat split; auto.
+  exact (socks_send_transparent s rel bufs H B).
+Qed.
+
+Theorem C17_no_fault_socks5 : forall G user pass addr cs,
+  ~ In EFault (snd (run (socks_body G) (alive (socks_init user pass addr)) cs)) /\
+  ~ In ELive (snd (run (socks_body G) (alive (socks_init user pass addr)) cs)).
+Proof. intros G user pass addr cs. apply socks_no_fault. apply sinv_init. Qed.
+
+Example C17_socks5_nonvacuous :
+  let cs := [[5; 2]; [1; 0]; [5; 0; 0; 1; 127; 0; 0; 1; 31; 144; 9]; [8; 7]] in
+  let r := run (socks_body 170) (alive (socks_init (Some [117]) (Some [112]) [1; 2; 3; 4; 31; 144])) cs in
+  no_short_handshake_read (snd r) /\
+  vis vis_str (snd r) = [ODn [1; 1; 117; 1; 112]; ODn [5; 1; 0; 1; 1; 2; 3; 4; 31; 144]; OByte 9; OByte 8; OByte 7].
+Proof. vm_compute. split; reflexivity. Qed.
+
+(** * (1) HTTP CONNECT *)
+
+Definition HTTP_OK : list Z := [72; 84; 84; 80; 47; 49; 46; 48; 32; 50; 48; 48; 32; 79; 75; 13; 10; 13; 10].
+Definition HTTP_CL_HEAD : list Z := [72; 84; 84; 80; 47; 49; 46; 48; 32; 50; 48; 48; 32; 79; 75; 13; 10; 67; 111; 110; 116; 101; 110; 116; 45; 76; 101; 110; 103; 116; 104; 58; 32; 51].
+Definition HTTP_CL_TAIL : list Z := [13; 10; 13; 10; 97; 98; 99].
+
+(** bytes that follow the proxy reply in the same read are lost (handed over with message->length unset) ... *)
+Theorem C17_seg_independent_http_refuted_trailing : exists G cs cs', concat cs = concat cs' /\
+  vis vis_str (snd (run (http_body G) (alive http_init) cs)) <> vis vis_str (snd (run (http_body G) (alive http_init) cs')).
+Proof.
+  exists 190, [HTTP_OK ++ [1; 2]], [HTTP_OK; [1; 2]]. split; [reflexivity|]. vm_compute. discriminate.
+Qed.
+
+(** ... a reply cut right after a Content-Length digit is parsed with a stale ring slot: spurious error ... *)
+Theorem C17_seg_independent_http_refuted_digit : exists G cs cs', concat cs = concat cs' /\
+  vis vis_str (snd (run (http_body G) (alive http_init) cs)) <> vis vis_str (snd (run (http_body G) (alive http_init) cs')).
+Proof.
+  exists 190, [HTTP_CL_HEAD; HTTP_CL_TAIL; [1; 2]], [HTTP_CL_HEAD ++ HTTP_CL_TAIL; [1; 2]].
+  split; [reflexivity|]. vm_compute. discriminate.
+Qed.
+
+(** ... and a header line longer than the free space makes the ring grow while wrapped: the outcome then
+    depends on uninitialised heap bytes (G) *)
+Theorem C17_http_grow_wrapped_reads_uninitialised : exists cs G G',
+  vis vis_str (snd (run (http_body G) (alive http_init) cs)) <> vis vis_str (snd (run (http_body G') (alive http_init) cs)).
+Proof.
+  exists [[72; 84; 84; 80; 47; 49; 46; 48; 32; 50; 48; 48; 32; 79; 75; 13; 10; 88; 45; 76; 111; 110; 103; 58; 32] ++ repZ 113 1100 ++ [13; 10; 13; 10]; [1; 2]], 190, 13.
+  vm_compute. discriminate.
+Qed.
+
+Theorem C17_tunnel_transparent_http : forall G s cs rel bufs, h_state s = HT_CONNECTED -> h_base s = true ->
+  fst (run (http_body G) (alive s) cs) = alive s /\
+  vis vis_str (snd (run (http_body G) (alive s) cs)) = map OByte (concat cs) /\
+  http_send s rel bufs = (s, [Dn (concat bufs); Snd 1]).
+Proof.
+  intros G s cs rel bufs H B. destruct (http_tunnel_transparent G s cs H B). repeat split; auto.
+  exact (http_send_transparent s rel bufs H B).
+Qed.
+
+(** no byte stream, however cut, makes the HTTP layer index outside its ring buffer, fail one of its
+    assertions, run a parser loop out of its bound, or spin without consuming input *)
+Theorem C17_no_fault_http : forall G cs,
+  ~ In EFault (snd (run (http_body G) (alive http_init) cs)) /\
+  ~ In ELive (snd (run (http_body G) (alive http_init) cs)).
+Proof. exact http_no_fault. Qed.
+
+Example C17_http_nonvacuous :
+  vis vis_str (snd (run (http_body 190) (alive http_init) [takeZ 9 HTTP_OK; dropZ 9 HTTP_OK; [1; 2]; [3]])) =
+  [OByte 1; OByte 2; OByte 3].
 Proof. vm_compute. reflexivity. Qed.
